@@ -354,6 +354,8 @@ func c03EmptyListPresent(r *Run) {
 		}
 		n++
 		key := "empty-list-stays-present:" + name
+		var bad, good []string
+		where := r.FnPos(fn)
 		for _, ret := range Returns(fn) {
 			if len(ret.Results) != 2 {
 				continue
@@ -377,23 +379,25 @@ func c03EmptyListPresent(r *Run) {
 			}
 			visit(ret.Results[0])
 			for _, l := range leaves {
-				switch x := l.(type) {
-				case *ssa.Const:
-					// the zero reflect.Value: nothing is decoded — only together with an error
-					r.Check(key, errNonNil, r.Where(ret), "no value is handed back only together with an error (the error here is "+r.D.D(ret.Results[1])+")")
-					continue
-				case *ssa.Call:
-					if f := x.Call.StaticCallee(); f != nil && FuncName(f) == "reflect.MakeSlice" {
-						r.Check(key, true, r.Where(ret), "the list handed back is "+r.D.D(l)+": non-nil also when it has no elements")
+				if errNonNil {
+					continue // handed back together with an error: nothing is stored
+				}
+				if c, isCall := l.(*ssa.Call); isCall {
+					if f := c.Call.StaticCallee(); f != nil && FuncName(f) == "reflect.MakeSlice" {
+						good = append(good, r.D.D(l))
 						continue
 					}
 				}
-				if errNonNil {
-					r.Check(key, true, r.Where(ret), "handed back together with an error: "+r.D.D(l))
-					continue
+				if len(bad) == 0 {
+					where = r.Where(ret)
 				}
-				r.Fail(key, r.Where(ret), "a SEQUENCE OF / SET OF that is present may decode to "+r.D.D(l)+", which is not the result of reflect.MakeSlice: if it is the nil slice (reflect.Zero, an unset variable), asn1.Marshal treats the field as absent and omits an OPTIONAL wrapper — RemoveSCTList keeps `a3 02 30 00` for a certificate whose only extension was the SCT list, while the re-marshal in BuildPrecertTBS drops it for the precertificate whose only extension was the poison, so the two routes yield different entries")
+				bad = append(bad, r.D.D(l)+" at "+r.Where(ret))
 			}
+		}
+		if len(bad) > 0 {
+			r.Fail(key, where, fmt.Sprintf("a SEQUENCE OF / SET OF that is present may decode to %v, not the result of reflect.MakeSlice: if that is the nil slice (reflect.Zero, an unset variable, reflect.New(t).Elem()), asn1.Marshal treats the field as absent and omits an OPTIONAL wrapper — RemoveSCTList keeps `a3 02 30 00` for a certificate whose only extension was the SCT list, while the re-marshal in BuildPrecertTBS drops it for the precertificate whose only extension was the poison, so the two routes yield different entries", bad))
+		} else {
+			r.Check(key, len(good) > 0, where, fmt.Sprintf("every list handed back without an error is made by reflect.MakeSlice (non-nil also when it has no elements): %v", good))
 		}
 	}
 	r.Floor("decoder functions that build a list of a requested type", n, 1)
